@@ -13,7 +13,7 @@ use mpd_protocol::command::Argument;
 use proptest::prelude::*;
 use serde::{Deserialize, Serialize};
 
-use crate::core::{CaseResult, ExhaustivePart, Property, RandomPart, Tier};
+use crate::core::{pick_idx, CaseResult, ExhaustivePart, Property, RandomPart, Tier};
 
 /// Written from MPD's tag table (src/tag/Names.cxx) and the MusicBrainz Picard mapping the
 /// crate's documentation refers to; *not* copied from tag.rs.
@@ -281,6 +281,7 @@ fn tag_string() -> impl Strategy<Value = String> {
     let table = tag_table();
     let names: Vec<&'static str> = table.iter().map(|(_, n)| *n).collect();
     let names2 = names.clone();
+    let names3 = names.clone();
     prop_oneof![
         3 => "[A-Za-z_-]{1,16}",
         3 => (0..names.len(), any::<u32>()).prop_map(move |(i, mask)| {
@@ -297,6 +298,21 @@ fn tag_string() -> impl Strategy<Value = String> {
             s
         }),
         1 => Just(String::new()),
+        // a known name with one letter replaced by a non-ASCII character that Unicode case mapping
+        // turns into that letter (KELVIN SIGN -> k, LONG S -> S, dotless/dotted I, fullwidth forms)
+        2 => (0..names3.len(), any::<u16>(), any::<u8>()).prop_map(move |(i, at, pick)| {
+            let mut cs: Vec<char> = names3[i].chars().collect();
+            let cands: Vec<usize> = (0..cs.len()).filter(|k| "kKsSiI".contains(cs[*k]) || cs[*k].is_ascii_alphabetic()).collect();
+            let k = cands[pick_idx(at, cands.len())];
+            cs[k] = match cs[k] {
+                'k' | 'K' => '\u{212A}',
+                's' | 'S' => '\u{17F}',
+                'i' => ['\u{130}', '\u{131}'][pick as usize % 2],
+                'I' => ['\u{131}', '\u{130}'][pick as usize % 2],
+                c => char::from_u32(0xFF21 + (c.to_ascii_uppercase() as u32 - 'A' as u32) + if c.is_ascii_lowercase() { 0x20 } else { 0 }).unwrap(),
+            };
+            cs.into_iter().collect::<String>()
+        }),
         2 => "[A-Za-z_-]{0,6}[ 0-9.:/\\n\\t\"']{1}[A-Za-z_-]{0,6}",
         2 => any::<String>(),
     ]
